@@ -75,8 +75,10 @@ def BOUNDS(tier):
         "the structure's counts",
     ]
     if tier == "thorough":
-        b.append("shipped genes (hg19+hg38): support pattern = core variants of 1-3 "
-                 "fixed alleles, counts symbolic; structures 2x*1 (+ fusion for CYP2D6)")
+        b.append("all 38 shipped genes (hg19+hg38): six support sets each (= core variants "
+                 "of 1-3 catalogued alleles, <= 7 variants), counts symbolic; structures "
+                 "2x*1, 3x*1, and fusion/deletion structures for CYP2D6/CYP2A6; 4-copy "
+                 "structures for toy and GA")
     return b
 
 
@@ -103,12 +105,31 @@ def configs(tier):
             for mode in ("noise", "planted"):
                 c.append({"gene": "GC", "genome": genome, "cn": st, "mode": mode})
     small = ["cyp2c19", "cyp2c9", "cyp3a5", "tpmt", "nudt15", "slco1b1"]
-    picks = small[:2] if tier == "quick" else small + ["cyp2d6", "cyp2b6", "ugt1a1"]
-    for g in picks:
-        for genome in (("hg19",) if tier == "quick" else ("hg19", "hg38")):
-            for k in ((0,) if tier == "quick" else (0, 1, 2)):
-                c.append({"gene": g, "genome": genome, "cn": ["1", "1"], "mode": "noise",
-                          "support": k})
+    if tier == "quick":
+        for g in small[:2]:
+            c.append({"gene": g, "genome": "hg19", "cn": ["1", "1"], "mode": "noise",
+                      "support": 0})
+    else:
+        # every shipped database, both builds, six support sets; structures with three
+        # copies and (where the gene has them) a fusion / the deletion allele
+        for g in [x for x in gengene.shipped_genes() if not x.startswith("pharma")]:
+            for genome in ("hg19", "hg38"):
+                for k in range(6):
+                    c.append({"gene": g, "genome": genome, "cn": ["1", "1"],
+                              "mode": "noise", "support": k})
+                c.append({"gene": g, "genome": genome, "cn": ["1", "1", "1"],
+                          "mode": "noise", "support": 1})
+        for g, extra in (("cyp2d6", ["1", "68"]), ("cyp2d6", ["1", "13"]),
+                         ("cyp2d6", ["1", "5"]), ("cyp2a6", ["1", "4"])):
+            for genome in ("hg19", "hg38"):
+                for k in range(3):
+                    c.append({"gene": g, "genome": genome, "cn": extra, "mode": "noise",
+                              "support": k})
+        for genome in ("hg19", "hg38"):
+            for st in (["1", "1", "1", "1"], ["1", "1", "4", "5"]):
+                c.append({"gene": "toy", "genome": genome, "cn": st, "mode": "noise"})
+            c.append({"gene": "GA", "genome": genome, "cn": ["1", "1", "5", "6"],
+                      "mode": "noise"})
     return c
 
 
@@ -124,6 +145,10 @@ def build_evidence(gene, cn_list, cfg):
                        if al.cn_config in cn_list and al.func_muts)
         k = cfg["support"]
         chosen = names[k::max(1, len(names) // 3)][:3]
+        # keep the exploration bounded: at most 7 supported core variants
+        while len({m for a in chosen for m in gene.alleles[a].func_muts}) > 7 and \
+                len(chosen) > 1:
+            chosen = chosen[:-1]
         sup = sorted({m for a in chosen for m in gene.alleles[a].func_muts})
         core_used = sup
         fixed_positive = True
